@@ -188,3 +188,39 @@ def install_cfitsio(it, session, consts):
     for n, f in (("fits_open_file", open_file), ("fits_get_num_hdus", get_num_hdus), ("fits_movabs_hdu", movabs_hdu), ("fits_get_img_dim", get_img_dim), ("fits_get_img_size", get_img_size),
                  ("fits_get_hdrspace", get_hdrspace), ("fits_read_keyn", read_keyn), ("fits_read_key", read_key), ("fits_read_pix", read_pix), ("fits_movnam_hdu", movnam_hdu)):
         f.__name__ = n; it.hooks[n] = guard(f)
+
+def install_cfitsio_writer(it, writer, consts):
+    W = writer
+    def guard(fn):
+        def h(it_, a):
+            stp = a[-1]; st = rd(stp)
+            if st > 0: return st
+            new = fn(it_, a); wr(stp, new); return new
+        return h
+    def create_img(it_, a):
+        bitpix, naxis, ax = a[1], a[2], a[3]
+        return W.create_img(bitpix, [rd(G.Ptr(ax.obj, ax.off + k)) for k in range(naxis)])
+    def write_pix(it_, a):
+        typ, fpix, nelem, src = a[1], a[2], a[3], a[4]
+        h = W.hdu(); first = 1; mult = 1
+        for k in range(len(h.axes)):
+            first += (rd(G.Ptr(fpix.obj, fpix.off + k)) - 1) * mult; mult *= h.axes[k]
+        want = {consts["TFLOAT"]: -32, consts["TDOUBLE"]: -64}[typ]
+        if want != h.bitpix: raise G.ExecError("fits_write_pix with a datatype that differs from the image type is not modelled")
+        return W.write_pix(first, [unfv(rd(G.Ptr(src.obj, src.off + k))) for k in range(nelem)])
+    def write_key_any(update):
+        def f(it_, a):
+            typ, name, val, comm = a[1], cstring(a[2]), a[3], (cstring(a[4]) if a[4].obj is not None else None)
+            if typ == consts["TSTRING"]: return W.write_key(name, M.quote_string(cstring(val)), comm, True, update)
+            if typ == consts["TINT"]:
+                v = rd(val) & 0xffffffff
+                if v >> 31: v -= 1 << 32                    # the callee reads an int
+                return W.write_key(name, str(v), comm, False, update)
+            if typ == consts["TDOUBLE"]:
+                v = unfv(rd(val))
+                if isinstance(v, str): raise G.ExecError("fits_write_key(TDOUBLE) of a non-finite value is not modelled")
+                return W.write_key(name, M.fmt_double(float(v)), comm, False, update)
+            raise G.ExecError("fits_write_key with datatype %d is not modelled" % typ)
+        return f
+    for n, f in (("fits_create_img", create_img), ("fits_write_pix", write_pix), ("fits_write_key", write_key_any(False)), ("fits_update_key", write_key_any(True))):
+        it.hooks[n] = guard(f)
